@@ -10,9 +10,12 @@ PYTHONPATH=$wt/src /venv/bin/python demo.py > /tmp/vt/seed_demo_mut.log 2>&1; rc
 suite=$(PYTHONPATH=$wt/src /venv/bin/python -m pytest -q -p no:cacheprovider --timeout=900 2>&1 | tail -1)
 git apply -R patch.diff
 PYTHONPATH=$wt/src /venv/bin/python demo.py > /tmp/vt/seed_demo_orig.log 2>&1; rc_orig=$?
+suite0=$(PYTHONPATH=$wt/src /venv/bin/python -m pytest -q -p no:cacheprovider --timeout=900 2>&1 | tail -1)
 git apply patch.diff
-echo "demo original rc=$rc_orig mutated rc=$rc_mut ; suite with change: $suite"
-case "$suite" in *"1 failed, 300 passed"*) ok_suite=1;; *) ok_suite=0;; esac
+echo "demo original rc=$rc_orig mutated rc=$rc_mut ; suite with change: $suite ; without: $suite0"
+# same counts with and without the change (the pinned baseline had one always-failing test; a later fix: made it pass)
+c1=$(echo "$suite" | sed 's/ in [0-9.]*s.*//; s/, [0-9]* warnings*//'); c0=$(echo "$suite0" | sed 's/ in [0-9.]*s.*//; s/, [0-9]* warnings*//')
+if [ "$c1" = "$c0" ]; then ok_suite=1; else ok_suite=0; fi
 if [ $rc_orig -ne 0 ] || [ $rc_mut -eq 0 ] || [ $ok_suite -ne 1 ]; then echo "NOT CONFIRMED"; exit 1; fi
 mkdir -p /verif/seeded/$name
 cp patch.diff demo.py /verif/seeded/$name/
